@@ -1708,20 +1708,21 @@ theorem cp_opt (fuel : Nat) (mm : Mem) (bk bs L os k : Nat) (sl : List Val) (v :
           (.expr (.assign (.slot (.load (.var 2) .ptr) k) .null .ptr)))
         { mem := mm, loc := [.ptr bk 0, .ptr bs (os : Int), .ptr L 0] } = .normal { mem := mm', loc := [.ptr bk 0, .ptr bs (os : Int), .ptr L 0] } ∧
       mm'[L]? = some { cells := [], slots := sl.set k v' } ∧ OptStr mm' v' s ∧ mm.length ≤ mm'.length ∧
-      (∀ b', b' < mm.length → b' ≠ L → mm'[b']? = mm[b']?) := by
+      (∀ b', b' < mm.length → b' ≠ L → mm'[b']? = mm[b']?) ∧ (∀ b, v' = .ptr b 0 → mm.length ≤ b) := by
   have hLlt : L < mm.length := (List.getElem?_eq_some_iff.1 hL).1
   cases hv with
   | none =>
     have ht : testOf (some (.load (.slot (.load (.var 1) .ptr) k) .ptr)) { mem := mm, loc := [.ptr bk 0, .ptr bs (os : Int), .ptr L 0] } =
         .ok (false, { mem := mm, loc := [.ptr bk 0, .ptr bs (os : Int), .ptr L 0] }) := by
       simp [testOf, evalE, evalL, readPlace, hsrc, truth, bind, Except.bind]
-    refine ⟨_, .null, by rw [exec_ite_false ht]; exact cp_null fuel mm bk bs L os k sl hL hk, by simp [hLlt], .none, by simp, fun b' _ hne => set_other hne⟩
+    refine ⟨_, .null, by rw [exec_ite_false ht]; exact cp_null fuel mm bk bs L os k sl hL hk, by simp [hLlt], .none, by simp, fun b' _ hne => set_other hne,
+      fun b hb => by cases hb⟩
   | some b str hc =>
     have ht : testOf (some (.load (.slot (.load (.var 1) .ptr) k) .ptr)) { mem := mm, loc := [.ptr bk 0, .ptr bs (os : Int), .ptr L 0] } =
         .ok (true, { mem := mm, loc := [.ptr bk 0, .ptr bs (os : Int), .ptr L 0] }) := by
       simp [testOf, evalE, evalL, readPlace, hsrc, truth, bind, Except.bind]
     obtain ⟨mm', he, h1, h2, h3, h4⟩ := cp_strdup fuel mm bk bs L os k sl b str hL hk hsrc hc
-    exact ⟨mm', _, by rw [exec_ite_true ht]; exact he, h1, .some _ _ h3, by omega, h4⟩
+    exact ⟨mm', _, by rw [exec_ite_true ht]; exact he, h1, .some _ _ h3, by omega, h4, fun b hb => by cases hb; exact Nat.le_refl _⟩
 
 theorem OptStr.mono {m m' : Mem} {v : Val} {s : Option (List UInt8)} (h : OptStr m v s)
     (hm : ∀ b, v = .ptr b 0 → m'[b]? = m[b]?) : OptStr m' v s := by
@@ -1812,7 +1813,7 @@ theorem cpy_file_entry_exec (m : Mem) (bk bl bs os : Nat) (gl : List (Nat × Lis
     (hsmall : (gl.length : Int) + 2 < 2147483648) (hline : (e.line : Int) < 18446744073709551616) (fuel : Nat) (hf : gl.length + 1 < fuel) :
     ∃ m' loc' bl' gl', exec fuel LeafFns.cpy_file_entry.body { mem := m, loc := [.ptr bk 0, .ptr bs (os : Int), .undef] } =
         .ret (.ptr m.length 0) { mem := m', loc := loc' } ∧
-      EntMem m' m.length 0 (Econf.cpyEntry e) [] ∧ m'.loadSlot m.length 6 = .ok (.int 0) ∧
+      EntMem m' m.length 0 (Econf.cpyEntry e) [bk, bl'] ∧ m'.loadSlot m.length 6 = .ok (.int 0) ∧
       (∃ ws, m'[m.length]? = some ({ cells := [], slots := ws } : Block) ∧ ws.length = 7) ∧
       GlMem m' bk bl' gl' ∧ gl'.map (·.2) = Econf.addGroup (gl.map (·.2)) e.group ∧
       (∃ bg, m'.loadSlot m.length 0 = .ok (.ptr bg 0) ∧ (bg, e.group) ∈ gl') ∧
@@ -1881,17 +1882,17 @@ theorem cpy_file_entry_exec (m : Mem) (bk bl bs os : Nat) (gl : List (Nat × Lis
   -- value and the two comments
   have hE2 := monoE mm2 hag2
   obtain ⟨v2, w1, w2, _⟩ := hE2.val
-  obtain ⟨mm3, v2', hS4, hL3, hval3, hlen3, hfr3⟩ := cp_opt fuel mm2 bk bs L os 2 _ v2 e.value hL2 (by simp [sl1, sl0]) (by simpa using w1) w2
+  obtain ⟨mm3, v2', hS4, hL3, hval3, hlen3, hfr3, hnew3⟩ := cp_opt fuel mm2 bk bs L os 2 _ v2 e.value hL2 (by simp [sl1, sl0]) (by simpa using w1) w2
   have hag3 : ∀ b, b < L → b ≠ bk → b ≠ bl → mm3[b]? = m[b]? := fun b hb h1 h2 => by
     rw [hfr3 b (by omega) (by omega)]; exact hag2 b hb h1 h2
   have hE3 := monoE mm3 hag3
   obtain ⟨v3, x1, x2, _⟩ := hE3.cb
-  obtain ⟨mm4, v3', hS5, hL4, hcb4, hlen4, hfr4⟩ := cp_opt fuel mm3 bk bs L os 3 _ v3 e.cb hL3 (by simp [sl1, sl0]) (by simpa using x1) x2
+  obtain ⟨mm4, v3', hS5, hL4, hcb4, hlen4, hfr4, hnew4⟩ := cp_opt fuel mm3 bk bs L os 3 _ v3 e.cb hL3 (by simp [sl1, sl0]) (by simpa using x1) x2
   have hag4 : ∀ b, b < L → b ≠ bk → b ≠ bl → mm4[b]? = m[b]? := fun b hb h1 h2 => by
     rw [hfr4 b (by omega) (by omega)]; exact hag3 b hb h1 h2
   have hE4 := monoE mm4 hag4
   obtain ⟨v4, y1, y2, _⟩ := hE4.ca
-  obtain ⟨mm5, v4', hS6, hL5, hca5, hlen5, hfr5⟩ := cp_opt fuel mm4 bk bs L os 4 _ v4 e.ca hL4 (by simp [sl1, sl0]) (by simpa using y1) y2
+  obtain ⟨mm5, v4', hS6, hL5, hca5, hlen5, hfr5, hnew5⟩ := cp_opt fuel mm4 bk bs L os 4 _ v4 e.ca hL4 (by simp [sl1, sl0]) (by simpa using y1) y2
   have hag5 : ∀ b, b < L → b ≠ bk → b ≠ bl → mm5[b]? = m[b]? := fun b hb h1 h2 => by
     rw [hfr5 b (by omega) (by omega)]; exact hag4 b hb h1 h2
   have hE5 := monoE mm5 hag5
@@ -1982,11 +1983,21 @@ theorem cpy_file_entry_exec (m : Mem) (bk bl bs os : Nat) (gl : List (Nat × Lis
   have hg7 : mm7.loadSlot L 0 = .ok (.ptr b' 0) := by simpa using ld 0 _ (by rw [hsl7]; rfl) (by simp)
   refine ⟨mm7, [.ptr bk 0, .ptr bs (os : Int), .ptr L 0], bl', gl', by simp [exec, evalE, evalL, readPlace, bind, Except.bind, L], ?_, ?_,
     ⟨sl7, hL7, by rw [hsl7]; rfl⟩, hG7, hnames, ⟨b', hg7, hmem1⟩, hag7, ?_, ?_, hne1, hd1, hgl'len⟩
-  · refine ⟨by simp, ⟨b', by simpa using hg7, by rw [cstr_congr (keep1 b' (cstr_lt hb'str) hb'ne)]; simpa [Econf.cpyEntry] using hb'str, by simp⟩,
-      ⟨m1'.length, by simpa using ld 1 _ (by rw [hsl7]; rfl) (by simp), by simpa [Econf.cpyEntry] using hkey7, by simp⟩,
-      ⟨v2', by simpa using ld 2 _ (by rw [hsl7]; rfl) n2, by simpa [Econf.cpyEntry] using o2, by simp⟩,
-      ⟨v3', by simpa using ld 3 _ (by rw [hsl7]; rfl) n3, by simpa [Econf.cpyEntry] using o3, by simp⟩,
-      ⟨v4', by simpa using ld 4 _ (by rw [hsl7]; rfl) n4, by simpa [Econf.cpyEntry] using o4, by simp⟩,
+  · have hbl'lt : bl' < m1.length := by
+      obtain ⟨gb, q1, _⟩ := hG1.arr
+      exact (List.getElem?_eq_some_iff.1 q1).1
+    have fresh : ∀ b, m1.length ≤ b → b ∉ [bk, bl'] := by
+      intro b hb hmem
+      simp at hmem
+      omega
+    have hb'av : b' ∉ [bk, bl'] := by
+      have := hd1 _ hmem1
+      simp; exact ⟨this.1, this.2⟩
+    refine ⟨by simp; omega, ⟨b', by simpa using hg7, by rw [cstr_congr (keep1 b' (cstr_lt hb'str) hb'ne)]; simpa [Econf.cpyEntry] using hb'str, hb'av⟩,
+      ⟨m1'.length, by simpa using ld 1 _ (by rw [hsl7]; rfl) (by simp), by simpa [Econf.cpyEntry] using hkey7, fresh _ (by omega)⟩,
+      ⟨v2', by simpa using ld 2 _ (by rw [hsl7]; rfl) n2, by simpa [Econf.cpyEntry] using o2, fun b hb => fresh b (by have := hnew3 b hb; omega)⟩,
+      ⟨v3', by simpa using ld 3 _ (by rw [hsl7]; rfl) n3, by simpa [Econf.cpyEntry] using o3, fun b hb => fresh b (by have := hnew4 b hb; omega)⟩,
+      ⟨v4', by simpa using ld 4 _ (by rw [hsl7]; rfl) n4, by simpa [Econf.cpyEntry] using o4, fun b hb => fresh b (by have := hnew5 b hb; omega)⟩,
       by simpa [Econf.cpyEntry] using ld 5 _ (by rw [hsl7]; rfl) (by simp)⟩
   · simpa using ld 6 _ (by rw [hsl7]; rfl) (by simp)
   · rcases hblor with h1 | h1
@@ -2041,7 +2052,7 @@ theorem fe_append_exec (m : Mem) (bk bl cell fa bs os : Nat) (gl : List (Nat × 
     ∃ m1 m' bl' gl' ws, exec fuel (.seq (.inl (some (.var t)) .ptr (.cons (.load (.var 0) .ptr) (.cons srcE .nil)) 3 LeafFns.cpy_file_entry.body)
           (.expr (.call "copy_words" (.cons (.sidx (.load (.slot (.load (.var 1) .ptr) 0) .ptr) idxE 7) (.cons (.load (.var t) .ptr) (.cons (.lit 7 .u64) .nil))))))
         { mem := m, loc := loc } = .normal { mem := m', loc := loc2 } ∧
-      EntMem m1 m.length 0 (Econf.cpyEntry e) [] ∧ m1[m.length]? = some ({ cells := [], slots := ws } : Block) ∧ ws.length = 7 ∧
+      EntMem m1 m.length 0 (Econf.cpyEntry e) [bk, bl'] ∧ m1[m.length]? = some ({ cells := [], slots := ws } : Block) ∧ ws.length = 7 ∧
       GlMem m1 bk bl' gl' ∧ gl'.map (·.2) = Econf.addGroup (gl.map (·.2)) e.group ∧
       (∀ b, b < m.length → b ≠ bk → b ≠ bl → m1[b]? = m[b]?) ∧
       m' = m1.set fa { ablk with slots := ablk.slots.take (7 * a) ++ ws ++ ablk.slots.drop (7 * a + 7) } ∧
@@ -2101,10 +2112,11 @@ theorem loadSlot_inv {m : Mem} {b : Nat} {blk : Block} {i : Nat} {v : Val} (h : 
   · simp [hl] at h
 
 /-- the copy, moved word for word into the array (`(*fe)[a] = copy`), is the same entry there -/
-theorem EntMem.moved {m1 : Mem} {L fa a : Nat} {e : Econf.Entry} {ws : List Val} {ablk : Block}
-    (h : EntMem m1 L 0 e []) (hL : m1[L]? = some ({ cells := [], slots := ws } : Block)) (hwl : ws.length = 7)
-    (ha : m1[fa]? = some ablk) (hal : ablk.live = true) (hac : ablk.cells = []) (hlen : 7 * a + 7 ≤ ablk.slots.length) (hne : fa ≠ L) :
-    EntMem (m1.set fa { ablk with slots := ablk.slots.take (7 * a) ++ ws ++ ablk.slots.drop (7 * a + 7) }) fa (7 * a) e [] := by
+theorem EntMem.moved {m1 : Mem} {L fa a : Nat} {e : Econf.Entry} {ws : List Val} {ablk : Block} {avoid : List Nat}
+    (h : EntMem m1 L 0 e avoid) (hL : m1[L]? = some ({ cells := [], slots := ws } : Block)) (hwl : ws.length = 7)
+    (ha : m1[fa]? = some ablk) (hal : ablk.live = true) (hac : ablk.cells = []) (hlen : 7 * a + 7 ≤ ablk.slots.length) (hne : fa ≠ L)
+    (hfav : fa ∉ avoid) :
+    EntMem (m1.set fa { ablk with slots := ablk.slots.take (7 * a) ++ ws ++ ablk.slots.drop (7 * a + 7) }) fa (7 * a) e avoid := by
   obtain ⟨m', hm'⟩ : ∃ m' : Mem, m' = m1.set fa { ablk with slots := ablk.slots.take (7 * a) ++ ws ++ ablk.slots.drop (7 * a + 7) } := ⟨_, rfl⟩
   rw [← hm']
   have hfalt : fa < m1.length := (List.getElem?_eq_some_iff.1 ha).1
@@ -2138,16 +2150,16 @@ theorem EntMem.moved {m1 : Mem} {L fa a : Nat} {e : Econf.Entry} {ws : List Val}
     cases hv with
     | none => exact .none
     | some b str hc => exact .some b str (strOk b str hc)
-  obtain ⟨bg, g1, g2, _⟩ := h.grp
-  obtain ⟨bq, k1, k2, _⟩ := h.key
-  obtain ⟨v, v1, v2, _⟩ := h.val
-  obtain ⟨vb, b1, b2, _⟩ := h.cb
-  obtain ⟨va, a1, a2, _⟩ := h.ca
-  refine ⟨by simp, ⟨bg, by simpa using wordAt 0 _ (by omega) (by simpa using g1), strOk _ _ g2, by simp⟩,
-    ⟨bq, by simpa using wordAt 1 _ (by omega) (by simpa using k1), strOk _ _ k2, by simp⟩,
-    ⟨v, by simpa using wordAt 2 _ (by omega) (by simpa using v1), optOk _ _ v2, by simp⟩,
-    ⟨vb, by simpa using wordAt 3 _ (by omega) (by simpa using b1), optOk _ _ b2, by simp⟩,
-    ⟨va, by simpa using wordAt 4 _ (by omega) (by simpa using a1), optOk _ _ a2, by simp⟩,
+  obtain ⟨bg, g1, g2, g3⟩ := h.grp
+  obtain ⟨bq, k1, k2, k3⟩ := h.key
+  obtain ⟨v, v1, v2, v3⟩ := h.val
+  obtain ⟨vb, b1, b2, b3⟩ := h.cb
+  obtain ⟨va, a1, a2, a3⟩ := h.ca
+  refine ⟨hfav, ⟨bg, by simpa using wordAt 0 _ (by omega) (by simpa using g1), strOk _ _ g2, g3⟩,
+    ⟨bq, by simpa using wordAt 1 _ (by omega) (by simpa using k1), strOk _ _ k2, k3⟩,
+    ⟨v, by simpa using wordAt 2 _ (by omega) (by simpa using v1), optOk _ _ v2, v3⟩,
+    ⟨vb, by simpa using wordAt 3 _ (by omega) (by simpa using b1), optOk _ _ b2, b3⟩,
+    ⟨va, by simpa using wordAt 4 _ (by omega) (by simpa using a1), optOk _ _ a2, a3⟩,
     by simpa using wordAt 5 _ (by omega) (by simpa using h.line)⟩
 
 /-- the append step as the loops use it: afterwards the array element `a` is the model's `cpyEntry` of the source, the
@@ -2167,12 +2179,14 @@ theorem C_fe_append (m : Mem) (bk bl cell fa bs os : Nat) (gl : List (Nat × Lis
     ∃ m' bl' gl', exec fuel (.seq (.inl (some (.var t)) .ptr (.cons (.load (.var 0) .ptr) (.cons srcE .nil)) 3 LeafFns.cpy_file_entry.body)
           (.expr (.call "copy_words" (.cons (.sidx (.load (.slot (.load (.var 1) .ptr) 0) .ptr) idxE 7) (.cons (.load (.var t) .ptr) (.cons (.lit 7 .u64) .nil))))))
         { mem := m, loc := loc } = .normal { mem := m', loc := loc2 } ∧
-      EntMem m' fa (7 * a) (Econf.cpyEntry e) [] ∧
+      EntMem m' fa (7 * a) (Econf.cpyEntry e) [bk, bl'] ∧
       GlMem m' bk bl' gl' ∧ gl'.map (·.2) = Econf.addGroup (gl.map (·.2)) e.group ∧
       (∀ b, b < m.length → b ≠ bk → b ≠ bl → b ≠ fa → m'[b]? = m[b]?) ∧
       (∃ ablk', m'[fa]? = some ablk' ∧ ablk'.live = true ∧ ablk'.writable = true ∧ ablk'.cells = [] ∧ ablk'.slots.length = 7 * cap ∧
         ∀ i, (i < 7 * a ∨ 7 * a + 7 ≤ i) → ablk'.slots[i]? = ablk.slots[i]?) ∧
-      m.length ≤ m'.length := by
+      m.length ≤ m'.length ∧
+      (bl' = bl ∨ m.length ≤ bl') ∧ (∀ blk, m'[bk]? = some blk → blk.writable = true) ∧ bk ≠ bl' ∧
+      (∀ x, x ∈ gl' → x.1 ≠ bk ∧ x.1 ≠ bl') ∧ gl'.length ≤ gl.length + 1 := by
   obtain ⟨m1, m', bl', gl', ws, hex, hEnt, hws, hwl, hG1, hnames, hfr, hm', hblor, hkw1, hne1, hd1, hgll⟩ :=
     fe_append_exec m bk bl cell fa bs os gl e loc loc2 srcE idxE t a cap hG hE hkw hne hd hsmall hline fuel hf hl0 hl1 ht ht1 hsrc hidx hl2t
       cblk hc1 hc2 hc3 hcne ablk ha1 ha2 ha3 ha4 hane hacap
@@ -2180,7 +2194,11 @@ theorem C_fe_append (m : Mem) (bk bl cell fa bs os : Nat) (gl : List (Nat × Lis
   have ha1' : m1[fa]? = some ablk := by rw [hfr fa halt hane.1 hane.2]; exact ha1
   have hLlt : m.length < m1.length := (List.getElem?_eq_some_iff.1 hws).1
   have hfaL : fa ≠ m.length := by omega
-  have hmoved := EntMem.moved (a := a) hEnt hws hwl ha1' ha2 ha5 (by rw [ha4]; omega) hfaL
+  have hblfa0 : bl' ≠ fa := by
+    rcases hblor with h1 | h1
+    · rw [h1]; exact Ne.symm hane.2
+    · omega
+  have hmoved := EntMem.moved (a := a) hEnt hws hwl ha1' ha2 ha5 (by rw [ha4]; omega) hfaL (by simp; exact ⟨hane.1, Ne.symm hblfa0⟩)
   rw [← hm'] at hmoved
   have hother : ∀ b, b ≠ fa → m'[b]? = m1[b]? := fun b hb => by rw [hm']; exact set_other hb
   -- the array holds no string, so nothing the group list points at is the array
@@ -2196,7 +2214,8 @@ theorem C_fe_append (m : Mem) (bk bl cell fa bs os : Nat) (gl : List (Nat × Lis
     obtain ⟨i, hi, rfl⟩ := List.getElem_of_mem hx
     obtain ⟨gb, a1, a2, a3, a4⟩ := hG1.arr
     exact noStr _ (hh ▸ (a4 i hi).2))
-  refine ⟨m', bl', gl', hex, hmoved, hG', hnames, fun b hb h1 h2 h3 => by rw [hother b h3, hfr b hb h1 h2], ?_, by rw [hm']; simp; omega⟩
+  refine ⟨m', bl', gl', hex, hmoved, hG', hnames, fun b hb h1 h2 h3 => by rw [hother b h3, hfr b hb h1 h2], ?_, by rw [hm']; simp; omega,
+    hblor, fun blk hb => hkw1 blk (by rw [← hother bk (Ne.symm hane.1)]; exact hb), hne1, hd1, hgll⟩
   have htk : (ablk.slots.take (7 * a)).length = 7 * a := by simp; omega
   refine ⟨{ ablk with slots := ablk.slots.take (7 * a) ++ ws ++ ablk.slots.drop (7 * a + 7) }, by rw [hm']; simp [(List.getElem?_eq_some_iff.1 ha1').1],
     ha2, ha3, ha5, by simp only [List.length_append, htk, hwl, List.length_drop, ha4]; omega, ?_⟩
